@@ -175,7 +175,7 @@ def build():
         ],
         "checks": checks,
         "not_applicable": na,
-        "notes": "All verdicts are produced by TLC evaluating spec/Props.tla on observations of /repo's working tree; see DESIGN.md. Beyond the listed properties the specification also covers event rendering, note durations, error messages, the precedence of errors across parse phases and the enumerations (checks X01-X05: harness/check.py X0n, drift only, DESIGN 11.9); harness/mutants.py, harness/selftest.py and harness/seeded.py are the self-tests.",
+        "notes": "All verdicts are produced by TLC evaluating spec/Props.tla on observations of /repo's working tree; see DESIGN.md. Beyond the listed properties the specification also covers event rendering, note durations, error messages, the precedence of errors across parse phases, the enumerations, note lines in any order and the value semantics of parsed objects (checks X01-X07: harness/check.py X0n, drift only, DESIGN 11.9); harness/mutants.py, harness/selftest.py and harness/seeded.py are the self-tests.",
     }
     return m
 
